@@ -514,12 +514,19 @@ var (
 	freeMu   sync.Mutex
 	freeMaps = map[uintptr]*mapOrder{}
 	FreePerm int
+	// FreeAlt: successive iterations over 2-3 element maps use successive
+	// permutations (FreePerm, FreePerm+1, ...) instead of one permutation for
+	// the whole run: two loops over one map then see different orders, as they
+	// may with Go's randomised iteration.
+	FreeAlt   bool
+	freeCalls int
 )
 
 // ResetFreeMaps forgets all recorded insertion orders (start of a free-running run).
 func ResetFreeMaps() {
 	freeMu.Lock()
 	freeMaps = map[uintptr]*mapOrder{}
+	freeCalls = 0
 	freeMu.Unlock()
 }
 
@@ -592,11 +599,18 @@ func Keys[K comparable, V any](m map[K]V) []K {
 	}
 	sort.Slice(rest, func(i, j int) bool { return fmt.Sprint(rest[i]) < fmt.Sprint(rest[j]) })
 	ks = append(ks, rest...)
-	if S == nil && FreePerm > 0 && (len(ks) == 2 || len(ks) == 3) {
+	if S == nil && (FreePerm > 0 || FreeAlt) && (len(ks) == 2 || len(ks) == 3) {
 		perms := [][]int{{0, 1, 2}, {1, 0, 2}, {0, 2, 1}, {2, 0, 1}, {1, 2, 0}, {2, 1, 0}}
-		p := perms[FreePerm%6]
+		fp := FreePerm
+		if FreeAlt {
+			freeMu.Lock()
+			fp += freeCalls
+			freeCalls++
+			freeMu.Unlock()
+		}
+		p := perms[fp%6]
 		if len(ks) == 2 {
-			p = perms[FreePerm%2]
+			p = perms[fp%2]
 		}
 		out := make([]K, len(ks))
 		for i := range ks {
